@@ -132,6 +132,14 @@ Section C14.
     filled (mask r c) (mask' r c) -> exists q, disp' r c = Some q /\ (lo <= q <= hi)%Q.
   Proof. exact (interp_filled_range m nr nc off disp mask NB). Qed.
 
+  (* a pixel is filled only when the map holds a valid pixel to fill it from (which pixels
+     exactly -- the first valid one of the row, the first valid ones of the 8 / 16 scan
+     directions -- is what the Spec met in C14_mc_cnn_meets_spec / C14_sgm_meets_spec says) *)
+  Theorem C14_filled_is_from_valid : forall r c, 0 <= r < nr -> 0 <= c < nc ->
+    remarked_by m nr nc off r c = false -> filled (mask r c) (mask' r c) ->
+    exists r' c', 0 <= r' < nr /\ 0 <= c' < nc /\ spec_valid (mask r' c') = true.
+  Proof. exact (interp_filled_needs_valid m nr nc off disp mask NB). Qed.
+
   (* a map without any valid pixel: no disparity changes and no flagged pixel loses its flag
      (the per-pixel statement "nothing valid along the scan directions => untouched" is part
      of the Spec met in C14_mc_cnn_meets_spec / C14_sgm_meets_spec) *)
@@ -286,6 +294,7 @@ Print Assumptions C14_flag_swap.
 Print Assumptions C14_other_bits_untouched.
 Print Assumptions C14_filled_or_stays_flagged.
 Print Assumptions C14_filled_between_min_max_valid.
+Print Assumptions C14_filled_is_from_valid.
 Print Assumptions C14_unfillable_stays_invalid.
 Print Assumptions C14_border_bit0.
 Print Assumptions C14_no_wrap.
